@@ -4,11 +4,17 @@
                                 edge is recorded on both paths - the edges are what the reload's importer closure follows.
   start_global_contexts         (proof) started iff the context is a file/apps/modules/scripts context and equals or is below the
                                 requested name (or no name / '*').
-  load_scripts                  decision block (changed set, importer closure, package widening, delete-then-load): BOUNDED native
-                                differential on real directory trees - random edit / reload histories against the statement's
-                                rules computed independently.  The block is one 250-line closure over the file system and the
-                                context manager; it was not brought under contract in the time available (see DESIGN.md), so C10
-                                is claimed at the bounded level only for that part and never counted as proved.
+  load_scripts                  (proof, loop contracts over symbolic maps of arbitrary size) the changed-set block: a context is
+                                discarded iff it is loaded and its file is gone or its source / mtime / app configuration differ; a
+                                file is forced iff it changed, or is new and auto-loaded; '*' and a named reload as documented; only
+                                force flags are written.  The delete loop removes exactly the discarded loaded contexts (stopped once);
+                                the load loop loads exactly the auto-loaded forced files with the file's source / mtime / config.
+                                The slices are cut mechanically out of load_scripts' body (from `ctx_delete = ...` to
+                                `will_reload = ...`, and the two loops by their iterables) on every run.
+                                NOT proved: the importer closure (import_recurse) and the package widening in between - their
+                                invariants need an existential over the visited set; they are covered by the BOUNDED native
+                                differential on real directory trees (random edit / reload histories against the statement's rules
+                                computed independently), which also exercises glob_read_files' naming, '#'-skipping and app gating.
 """
 from __future__ import annotations
 
@@ -33,15 +39,17 @@ ASSUMPTIONS = [
     "running a script (GlobalContextMgr.load_file) is C01-C03 / C18 territory; here a load succeeds unless an import is missing",
     "contexts are visited once per dictionary iteration",
 ]
-NOT_DECIDED = ["load_scripts' decision block for ALL trees and histories: only the bounded differential explores it",
+NOT_DECIDED = ["importer closure (import_recurse) and package widening for ALL trees: only the bounded differential explores them",
                "a module that is no longer imported by anyone but whose file is unchanged stays loaded: the statement's first sentence "
                "('exactly ... plus the modules they import') and its second ('leaves all other contexts untouched') disagree on it; "
                "the reference follows the second",
                "a reload while scripts are still starting (ordering with start_global_contexts of a previous reload)"]
 SHAPE_BOUNDS = {"tree": "11 files: 2 top-level, 2 scripts (one nested), app module + app package with helper, module, module package with "
                         "sub-module, second module; import chain of depth 3"}
-LEVEL_TEXT = ("module_import and start_global_contexts: proof.  The reload decision itself: BOUNDED - random histories (modify, touch, "
-              "create, delete, '#'-rename, app-config change; reload None / name / '*') on real trees, stated bound; not a proof.")
+LEVEL_TEXT = ("Mixed, claimed at the exploration level because the middle of the reload decision is not proved: module_import, "
+              "start_global_contexts, the changed-set block (loop invariants, maps of any size), the delete loop and the load loop are "
+              "proofs; the importer closure, package widening, file discovery and the composition over whole histories are a BOUNDED "
+              "differential on real trees (modify, touch, create, delete, '#'-rename, app-config change; reload None / name / '*').")
 
 
 def h_start_global_contexts(eng):
@@ -79,6 +87,207 @@ def load_init_module(it, extra):
     return Module(it, I_PY, stubs=stubs)
 
 
+# ----------------------------------------------------------------------------------------------------------
+# load_scripts: the changed-set block (first part of the decision), the delete loop and the load loop, on symbolic maps
+# ----------------------------------------------------------------------------------------------------------
+import ast as _ast
+from pyvc.interp import Env
+from pyvc.loader import find_def, parse_file, number_loops
+from pyvc.stmts import LoopSpec
+from pyvc.values import Store, TMap, TSet, TScalar, TStruct, USort, NameS, DName, name_axioms_for
+from .common import Forall, ObjS
+
+CtxS = USort("GlobalCtx")
+RealS = z3.RealSort()
+FILE_T = TMap(NameS, TStruct({"source": TScalar(ObjS), "app_config": TScalar(ObjS), "mtime": TScalar(RealS), "autoload": TScalar(z3.BoolSort()),
+                              "force": TScalar(z3.BoolSort()), "check_config": TScalar(z3.BoolSort())}))
+
+
+def block_of(fn_node, first_target, end_target):
+    """the statements of load_scripts from `first_target = ...` up to (excluding) `end_target = ...` (mechanical slice)"""
+    body = fn_node.body
+
+    def idx(name):
+        for i, st in enumerate(body):
+            if isinstance(st, _ast.Assign) and len(st.targets) == 1 and isinstance(st.targets[0], _ast.Name) and st.targets[0].id == name:
+                return i
+        raise AssertionError(f"load_scripts no longer assigns {name} at top level")
+    return body[idx(first_target):idx(end_target)]
+
+
+def h_changed_set(eng):
+    U = "C10/load_scripts#changed-set"
+    eng.max_steps = 2_000_000
+    it = Interpreter(eng)
+    it.obj_may_be_none = True
+    w = World(eng)
+    mode = ["default", "star", "named"][eng.choose(3, "reload-argument")]
+    tree, _ = parse_file(I_PY)
+    fn = find_def(tree, "load_scripts")
+    number_loops(fn)
+    stmts = block_of(fn, "ctx_delete", "will_reload")
+    ctx_all = Store(eng, "ctx_all", TMap(NameS, TScalar(CtxS)))
+    files = Store(eng, "ctx2files", FILE_T)
+    A0, F0 = ctx_all.snapshot(), files.snapshot()
+    # every file entry has all its fields; nothing is forced yet (SourceFile.__init__ sets force = False)
+    eng.assume(Forall([NameS], lambda n: z3.Implies(z3.Select(F0["dom"], n), z3.And(
+        *[z3.Select(F0[f".{f}?"], n) for f in ("source", "app_config", "mtime", "autoload", "force", "check_config")], z3.Not(z3.Select(F0[".force:v"], n)))), "files-wf"))
+    src_of, cfg_of, mt_of = z3.Function("ctx_source", CtxS, ObjS), z3.Function("ctx_app_config", CtxS, ObjS), z3.Function("ctx_mtime", CtxS, RealS)
+    it.method_tables[("GlobalCtx", "get_source")] = lambda i, c: SV(src_of(c.t))
+    it.method_tables[("GlobalCtx", "get_app_config")] = lambda i, c: SV(cfg_of(c.t))
+    it.method_tables[("GlobalCtx", "get_mtime")] = lambda i, c: SV(mt_of(c.t))
+    delete = Store(eng, "ctx_delete", TSet(NameS))
+    errors = []
+
+    def set_(i, arg=None):
+        delete.cols["in"] = z3.K(NameS, z3.BoolVal(False)) if arg is None else ctx_all.cols["dom"]
+        return delete.view()
+    only_t = z3.Const("global_ctx_only", NameS)
+    for ax in name_axioms_for(only_t):
+        eng.assume(ax)
+    from pyvc.values import nparts
+    eng.assume(nparts(only_t) >= 2)   # a context name has a kind prefix (file. / apps. / modules. / scripts.); '*' is the other branch
+    only = None if mode == "default" else ("*" if mode == "star" else DName(only_t))
+    env = Env(vars={"ctx_all": ctx_all.view(), "ctx2files": files.view(), "global_ctx_only": only, "set": set_,
+                    "_LOGGER": Rec(fields={"error": lambda i, *a: errors.append(a), "debug": lambda i, *a: None, "info": lambda i, *a: None}, name="_LOGGER")})
+
+    def changed(n):
+        c = z3.Select(A0[".v"], n)
+        return z3.Or(z3.Select(F0[".source:v"], n) != src_of(c), z3.Select(F0[".app_config:v"], n) != cfg_of(c), z3.Select(F0[".mtime:v"], n) != mt_of(c))
+
+    def in_all(n):
+        return z3.Select(A0["dom"], n)
+
+    def in_files(n):
+        return z3.Select(F0["dom"], n)
+
+    def D(n):
+        return z3.Select(delete.cols["in"], n)
+
+    def force(n):
+        return z3.Select(files.cols[".force:v"], n)
+
+    def frame_files():
+        # nothing but the force flag of existing entries is written
+        return Forall([NameS], lambda n: z3.And(z3.Select(files.cols["dom"], n) == in_files(n),
+                                                *[z3.Select(files.cols[f".{f}:v"], n) == z3.Select(F0[f".{f}:v"], n) for f in ("source", "app_config", "mtime", "autoload", "check_config")]), "frame")
+    # loop contracts (default reload): first the contexts without a file, then the changed / new files
+    def inv_gone(interp, env_, visited, members):
+        return [Forall([NameS], lambda n: D(n) == z3.And(z3.Select(visited, n), in_all(n), z3.Not(in_files(n))), "gone"),
+                Forall([NameS], lambda n: z3.Implies(in_files(n), z3.Not(force(n))), "noforce"), frame_files()]
+
+    def inv_changed(interp, env_, visited, members):
+        return [Forall([NameS], lambda n: D(n) == z3.Or(z3.And(in_all(n), z3.Not(in_files(n))), z3.And(z3.Select(visited, n), in_all(n), in_files(n), changed(n))), "del"),
+                Forall([NameS], lambda n: z3.Implies(in_files(n), force(n) == z3.And(z3.Select(visited, n), z3.If(in_all(n), changed(n), z3.Select(F0[".autoload:v"], n)))), "force"),
+                frame_files()]
+    fors = [n for n in _ast.walk(_ast.Module(body=stmts, type_ignores=[])) if isinstance(n, _ast.For)]
+    fors.sort(key=lambda n: n.lineno)
+    by_iter = {_ast.unparse(n.iter): n for n in fors}
+    it.func_stack.append("load_scripts")
+    if "ctx_all.items()" in by_iter:
+        it.loop_specs[("load_scripts", by_iter["ctx_all.items()"]._ordinal)] = LoopSpec(inv_gone, [delete, files], name="gone")
+    # the second loop over ctx2files.items() in the slice is the changed-files loop (the first one is the '*' branch)
+    f_loops = [n for n in fors if _ast.unparse(n.iter) == "ctx2files.items()"]
+    star_loop, changed_loop = (f_loops + [None, None])[:2]
+    if changed_loop is not None:
+        it.loop_specs[("load_scripts", changed_loop._ordinal)] = LoopSpec(inv_changed, [delete, files], name="changed")
+    if star_loop is not None:
+        it.loop_specs[("load_scripts", star_loop._ordinal)] = LoopSpec(
+            lambda interp, env_, visited, members: [Forall([NameS], lambda n: z3.Implies(in_files(n), force(n) == z3.Select(visited, n)), "all-forced"), frame_files(),
+                                                    Forall([NameS], lambda n: D(n) == in_all(n), "all-deleted")], [files], name="star")
+    from pyvc.interp import _Return
+    try:
+        it.exec_block(stmts, env)
+        end = "fallthrough"
+    except _Return:
+        end = "return"
+    except Raised as r:
+        end = "raised:" + r.exc.cls.name
+    eng.cover(f"end:{end}:{mode}")
+    eng.oblige(f"{U}/post.no-exception", not end.startswith("raised"))
+
+    def W(ob, what):
+        if ob.status == "refuted":
+            ob.witness = {"signature": f"changed-set:{mode}:{what}", "what": what, "mode": mode}
+        return ob
+    W(eng.oblige(f"{U}/frame.only-force-flags-are-written", frame_files()), "frame")
+    if mode == "default":
+        W(eng.oblige(f"{U}/post.discarded-iff-gone-or-changed", Forall([NameS], lambda n: D(n) == z3.And(in_all(n), z3.Or(z3.Not(in_files(n)), changed(n))), "post")), "discard")
+        W(eng.oblige(f"{U}/post.forced-iff-changed-or-new-and-autoloaded", Forall([NameS], lambda n: z3.Implies(
+            in_files(n), force(n) == z3.If(in_all(n), changed(n), z3.Select(F0[".autoload:v"], n))), "post")), "force")
+    elif mode == "star":
+        W(eng.oblige(f"{U}/post.star-discards-every-context", Forall([NameS], lambda n: D(n) == in_all(n), "p1")), "star")
+        W(eng.oblige(f"{U}/post.star-forces-every-file", Forall([NameS], lambda n: z3.Implies(in_files(n), force(n)), "p2")), "star")
+    else:
+        known = z3.Or(in_all(only_t), in_files(only_t))
+        if end == "return":
+            W(eng.oblige(f"{U}/post.unknown-name-is-reported-and-changes-nothing", z3.And(z3.Not(known), len(errors) == 1)), "unknown-name")
+        else:
+            W(eng.oblige(f"{U}/post.named-reload-requires-a-known-name", known), "named")
+            W(eng.oblige(f"{U}/post.named-reload-discards-exactly-a-context-without-file", Forall([NameS], lambda n: D(n) == z3.And(n == only_t, z3.Not(in_files(only_t))), "p1")), "named")
+            W(eng.oblige(f"{U}/post.named-reload-forces-exactly-that-file", Forall([NameS], lambda n: z3.Implies(in_files(n), force(n) == (n == only_t)), "p2")), "named")
+
+
+def h_delete_and_load(eng):
+    """the delete loop and the load loop: exactly ctx_delete-and-loaded contexts are stopped and removed (once); exactly the
+    auto-loaded forced files are loaded, flagged 'reload' iff they were discarded"""
+    U = "C10/load_scripts#delete-and-load"
+    eng.max_steps = 2_000_000
+    it = Interpreter(eng)
+    it.obj_may_be_none = True
+    w = World(eng)
+    tree, _ = parse_file(I_PY)
+    fn = find_def(tree, "load_scripts")
+    number_loops(fn)
+    body = fn.body
+    loops = [st for st in body if isinstance(st, (_ast.For, _ast.AsyncFor))]
+    del_loop = next(st for st in loops if _ast.unparse(st.iter) == "ctx_delete")
+    load_loop = next(st for st in loops if _ast.unparse(st.iter) == "sorted(ctx2files.items())")
+    which = ["delete", "load"][eng.choose(2, "loop")]
+    name_t = z3.Const("name", NameS)
+    for ax in name_axioms_for(name_t):
+        eng.assume(ax)
+    name = DName(name_t)
+    in_all = bool(eng.choose(2, "context-is-loaded"))
+    in_files = bool(eng.choose(2, "file-exists"))
+    autoload, force, in_delete = (bool(eng.choose(2, k)) for k in ("autoload", "force", "discarded"))
+    ctx = Rec(name="old_ctx")
+    stops, deleted, loads, made = [], [], [], []
+    ctx._fields.update({"stop": lambda i: stops.append(1), "get_file_path": lambda i: "path"})
+    src = Rec(fields={"autoload": autoload, "force": force, "global_ctx_name": name, "fq_mod_name": "m", "rel_import_path": None, "app_config": None,
+                      "source": "src", "mtime": 1.0, "file_path": "/p"}, name="src_info")
+    ctx_all = {name: ctx} if in_all else {}
+    ctx2files = {name: src} if in_files else {}
+    mgr = Rec(fields={"delete": lambda i, n: deleted.append(n), "load_file": lambda i, g, p, source=None, reload=False: Coro(lambda: loads.append((g, p, source, reload)), "load_file")}, name="GlobalContextMgr")
+
+    def GlobalContext(i, n, **kw):
+        g = Rec(fields=dict(kw, name=n), name="new_ctx")
+        made.append(g)
+        return g
+    env = Env(vars={"ctx_all": ctx_all, "ctx2files": ctx2files, "ctx_delete": SymPySet([name]) if in_delete else SymPySet([]), "GlobalContextMgr": mgr,
+                    "GlobalContext": GlobalContext, "sorted": lambda i, x: [list(t) for t in i.iterate(x)],
+                    "_LOGGER": Rec(fields={"error": lambda i, *a: None, "debug": lambda i, *a: None, "info": lambda i, *a: None}, name="_LOGGER")})
+    it.func_stack.append("load_scripts")
+    k, v = run_catching(it, lambda: it.exec_block([del_loop if which == "delete" else load_loop], env))
+    eng.cover(f"exit:{k}:{which}")
+    eng.oblige(f"{U}/post.no-exception", k == "ok")
+    if which == "delete":
+        want = in_delete and in_all
+        ob = eng.oblige(f"{U}/delete.stopped-and-removed-once-iff-discarded-and-loaded", (stops == [1] and len(deleted) == 1) if want else (stops == [] and deleted == []))
+        if ob.status == "refuted":
+            ob.witness = {"signature": "delete-loop"}
+    else:
+        want = in_files and autoload and force
+        ob = eng.oblige(f"{U}/load.loaded-once-iff-autoloaded-and-forced", (len(loads) == 1 and len(made) == 1) if want else (loads == [] and made == []))
+        if ob.status == "refuted":
+            ob.witness = {"signature": "load-loop"}
+        if want and len(loads) == 1:
+            g, p, source, reload = loads[0]
+            eng.oblige(f"{U}/load.new-context-carries-the-files-source-mtime-and-config", g is made[0] and g._fields.get("source") == "src" and g._fields.get("mtime") == 1.0
+                       and g._fields.get("app_config") is None and source == "src" and p == "/p")
+            eng.oblige(f"{U}/load.reload-flag-iff-the-context-was-discarded", reload is in_delete or reload == in_delete)
+
+
 def bounded_reload(k, n):
     def run(seed):
         from replay.native import run_native
@@ -91,6 +300,8 @@ def harnesses():
     for c in c11.IMPORT_CASES:
         hs.append(Harness(f"module_import[{c[0]},level={c[1]},rel={c[2]}]", c11.h_module_import(c), units=[(GC_PY, "GlobalContext.module_import")]))
     hs.append(Harness("start_global_contexts", h_start_global_contexts, units=[(I_PY, "start_global_contexts")]))
+    hs.append(Harness("load_scripts.changed-set", h_changed_set, units=[(I_PY, "load_scripts")], max_paths=20000))
+    hs.append(Harness("load_scripts.delete-and-load", h_delete_and_load, units=[(I_PY, "load_scripts")]))
     units_b = [(I_PY, "load_scripts"), (GC_PY, "GlobalContext.module_import"), (GC_PY, "GlobalContextMgr.load_file")]
     hs.append(Harness("bounded.reload", bounded_reload(0, 200), units=units_b, kind="bounded"))
     for k in range(1, 9):
